@@ -133,7 +133,11 @@ func poolConfigs() map[string]core.TxPoolConfig {
 	tiny.AccountSlots, tiny.GlobalSlots, tiny.AccountQueue, tiny.GlobalQueue = 1, 2, 2, 3
 	nol := def
 	nol.NoLocals = true
-	return map[string]core.TxPoolConfig{"default": def, "tiny": tiny, "nolocals": nol}
+	// small: room for two senders with different pending counts above the per-account share, so that the
+	// pool-wide limit is enforced by equalising several offenders (runSeq preloads A0 A1 A2 B0 under it)
+	small := def
+	small.AccountSlots, small.GlobalSlots, small.AccountQueue, small.GlobalQueue = 1, 4, 3, 6
+	return map[string]core.TxPoolConfig{"default": def, "tiny": tiny, "nolocals": nol, "small": small}
 }
 
 // ---- invariant -----------------------------------------------------------------------------------
